@@ -14,7 +14,7 @@ EXTRA = {"C03-A":["C10"], "C10-B":["C03"], "C15-A":["C02","C16","C01"], "C15-B":
          "C01-C":["C02","C16"], "C01-D":["C03"], "C10-D":["C12"], "C12-C":["C10"], "C20-C":["C16","C14"], "C04-C":["C17","C01"], "C04-D":["C02","C01"]}
 only = sys.argv[1:]
 res = {}
-for d in sorted(glob.glob("/verif/seeded/C*-[ABCD]")):
+for d in sorted(glob.glob("/verif/seeded/C*-[A-G]")):
     sid = os.path.basename(d)
     if only and sid not in only: continue
     if os.path.exists("/tmp/seed_matrix.json") and sid in json.load(open("/tmp/seed_matrix.json")): continue
